@@ -1,5 +1,6 @@
 import MosnVerif.Drive.Util
 import MosnVerif.Model.CheckedWire
+import MosnVerif.Model.H2Alloc
 /-! [c08p10] helper driver of C08, kinds `mat` (protocol matchers) and `h2pay` (HTTP/2 frame payload parsers): the
 regenerated checked-access programs (Gen/C08Matchers, Gen/C08H2Parse) evaluated on the case. Core Lean only; no `main`. -/
 namespace MosnVerif.Drive.C08Chk
@@ -42,5 +43,37 @@ def h2pay (ty flags sid payload : String) (impl : List String) : String :=
       else true
     s!"{if mo == o then "A" else "D"} {if spec then "S" else "V"} {mo}"
   | _, _, _, _, _ => "E E bad-h2pay-case"
+
+/-- `h2hl <limit> <nameLen.valueLen,…> => kept=<k> trunc=<0|1> | err | panic | hang`: one real `MFramer.ReadFrame` on a
+HEADERS frame with these fields, `MaxHeaderListSize = limit`.  Model: the regenerated emit step program under the
+regenerated budget; hand-written: a FIRST field with a string longer than the limit is a decoding error (the limit is
+also the decoder's maximal string length).  Predicate (RFC 7540 §6.5.2 / the Framer's documentation, by hand): no panic,
+no hang; the fields kept are a prefix whose sizes (name + value + 32) sum to at most the limit (16 MiB when 0). -/
+def h2hl (limit fields : String) (impl : List String) : String :=
+  let parseF (s : String) : Option (Nat × Nat) := match s.splitOn "." with
+    | [a, b] => match a.toNat?, b.toNat? with
+      | some x, some y => some (x, y)
+      | _, _ => none
+    | _ => none
+  match limit.toNat?, (fields.splitOn ",").mapM parseF with
+  | some lim, some fs =>
+    let o := joinWith " " impl
+    let eff : Nat := if lim = 0 then 16777216 else lim
+    let m : String :=
+      if lim ≠ 0 && (match fs with | f :: _ => decide (f.1 > lim ∨ f.2 > lim) | [] => false) then "err"
+      else
+        let s := MosnVerif.Model.H2Alloc.emitAll MosnVerif.Gen.C08H2Alloc.h2a_emitOps
+          (MosnVerif.Gen.C08H2Alloc.h2a_maxHeaderListSize lim) fs
+        s!"kept={s.kept.length} trunc={if s.truncated then 1 else 0}"
+    let spec : Bool := match impl with
+      | ["err"] => true
+      | [k, _] => if k.startsWith "kept=" then
+          match (k.splitOn "=").getLast?.bind String.toNat? with
+          | some kn => decide (kn ≤ fs.length ∧ ((fs.take kn).map (fun f => f.1 + f.2 + 32)).foldl (· + ·) 0 ≤ eff)
+          | none => false
+        else false
+      | _ => false
+    s!"{if m == o then "A" else "D"} {if spec then "S" else "V"} {m}"
+  | _, _ => "E E bad-h2hl-case"
 
 end MosnVerif.Drive.C08Chk
